@@ -21,29 +21,29 @@ CHECKS = {
    text="Every Append in seeded histories (incl. after SetIdentity and after reload through each loader) is checked for next = heads, clock id, clock dominance over all held entries, single head, reference soundness and the logarithmic bound.",
    note="Reference bound is floor(log2 pc)+2, the loosest reading of 'at most logarithmic' that cannot false-alarm."),
  "C05": dict(cat="exploration", ref="§3 C05", tech="runtime monitor: per-replica monotonicity + global content-digest shadow swept after every step, all codecs",
-   text="After every step all replicas are swept: nothing vanishes or changes (digest over every field, also through Get), Len is monotone, previous values are a subsequence; a global shadow detects in-place mutation of entries shared between log instances.",
+   text="After every step all replicas are swept: nothing vanishes or changes (digest over every field, also through Get), Len is monotone, previous values are a subsequence; a global shadow detects in-place mutation of entries shared between log instances; every accessor (Heads, RawHeads, Values, snapshot) must hand out the object the log holds under that hash (histories include merges that offer a tampered same-hash look-alike of a held entry, and link keys whose buffer the application wipes later).",
    note="Digest covers payload, id, next, refs, v, key, sig, identity, hash, clock."),
  "C06": dict(cat="exploration", ref="§3 C06", tech="runtime monitor: corruption/policy injection with independent validity model, atomicity by snapshot equality, child processes with journal",
-   text="Seeded corrupted source logs (10 corruption kinds at head/interior/root positions, up to 300 candidates) are merged under 5 access policies; the oracle knows which candidates are invalid or denied and demands error + unchanged log, or success with only valid candidates admitted; denied appends; Verify and merge-into-fresh for every appended entry under the default, link-encrypting and legacy codecs.",
+   text="Seeded corrupted source logs (10 corruption kinds at head/interior/root positions, up to 300 candidates) are merged under 5 access policies; the oracle knows which candidates are invalid or denied and demands error + unchanged log, or success with only valid candidates admitted; identity-less entries; tampered look-alikes of entries the destination already holds offered as heads; denied appends; Verify and merge-into-fresh for every appended entry - the objects Append returned and the ones read back from storage through each loader - under the default, link-encrypting and legacy codecs.",
    note="Runs in child processes so that a panic on a verification goroutine is attributed to its input."),
 
  "C07": dict(cat="exploration", ref="§3 C07", tech="runtime monitor: single-field mutation matrix on deep copies of real entries, Verify as observed oracle",
-   text="Every appended entry of seeded histories (7 payload classes incl. invalid UTF-8, 0-16 predecessors, 0-7 references, 3 codecs) is copied and ~90 single-field variants are verified: each must fail while the untouched copy passes. One recorded finding (payloads differing only inside invalid UTF-8 sequences sign identically) is matched narrowly by field + equality after UTF-8 coercion.",
+   text="Every appended entry of seeded histories (7 payload classes incl. invalid UTF-8, 0-16 predecessors, 0-7 references, 3 codecs) is copied and ~90 single-field variants are verified: each must fail while the untouched copy passes; at merge level a tampered variant hidden in a chain of 17-60 entries, or offered again after a size-bounded merge validated and trimmed the genuine entry, must not be admitted. One recorded finding (payloads differing only inside invalid UTF-8 sequences sign identically) is matched narrowly by field + equality after UTF-8 coercion.",
    note="Duplicating a link changes neither membership nor order and is only counted. Identity fields are not in the property's list of signed parts."),
  "C08": dict(cat="exploration", ref="§3 C08", tech="runtime monitor: write/read-back field equality, re-encode CID equality, cross-process CID-list comparison, pinned vectors",
-   text="Seeded corpus written and read back through the real codecs with field-by-field and CID comparisons, manifests, the repository's own pinned interoperability vectors and v0/v1 fixtures re-created with the suite's key material, and the same corpus encoded in 3 child processes (GOMAXPROCS 1/4/16).",
+   text="Seeded corpus written and read back through the real codecs with field-by-field and CID comparisons, manifests, held entry objects re-encoded after logs configured with other codecs tried to merge them, link keys built from a buffer the caller wipes after the first writes, the repository's own pinned interoperability vectors and v0/v1 fixtures re-created with the suite's key material, and the same corpus encoded in 3 child processes (GOMAXPROCS 1/4/16).",
    note="Pinned values are the literals of test/entry_test.go, test/utils_fixtures_test.go, test/log_load_test.go; nothing new is pinned."),
  "C09": dict(cat="exploration", ref="§3 C09", tech="runtime monitor: reload through 4 loaders against a gated block store that releases requests in adversarial orders; model equality",
    text="At seeded (thorough: all) states of seeded histories each replica is rebuilt without limit through all four loaders under concurrency {1,2,3,8,32} x 6 release policies + ungated; id, entries, heads, values must equal the source. thorough runs race-instrumented.",
    note="Arrival order is varied by parking Get calls; timing decides only which order is realised."),
  "C10": dict(cat="exploration", ref="§3 C10", tech="runtime monitor: count / membership / top-m-up-to-ties / schedule-independence oracle over limited loads on the gated store",
-   text="Four loaders x every limit 0..size+2 (quick: seeded third) x concurrency x release policy on forked logs with skip references; count = min(max(n,k),size), supplied entries kept, nothing strictly more recent omitted, and equal result sets for two runs differing only in schedule (when clocks are distinct).",
+   text="Four loaders x every limit 0..size+2 (quick: seeded third) x concurrency x release policy on forked logs with skip references; count = min(max(n,k),size), supplied entries kept, nothing strictly more recent omitted, equal result sets for two runs differing only in schedule (when clocks are distinct), the caller's limit variable untouched; a quarter of the logs under the link-encrypting codec.",
    note="Membership uses the strict part of (time, clock id) so ties cannot false-alarm."),
  "C11": dict(cat="fault_enumeration", ref="§3 C11", tech="fault injection at the block-store boundary + offline checker over the recorded Get event log + state-based hang detector, child processes",
-   text="Every fault kind (absent, removed, I/O error, undecodable, non-entry block, hang until timeout) at every structural position class (all heads, one head, cut vertex, everything, independent subsets) x exclusion sets x concurrency x completion orders; the event log is checked for double / excluded requests, the result against the model's reachability closure, termination by quiescence.",
+   text="Every fault kind (absent, removed, I/O error, undecodable, non-entry block, hang until timeout) at every structural position class (all heads, one head, cut vertex, everything, independent subsets) x exclusion sets x concurrency x completion orders; the event log is checked for double / excluded requests and for the deadline of every request's context (a configured timeout bounds every request, also under a caller deadline), the result against the model's reachability closure, termination by quiescence; through FetchAll and through the manifest loader, default and link-encrypting codec (incl. sealed links with a wrong-length nonce); a fifth of the quick cases again under the race detector.",
    note="Fault kinds x position classes are enumerated; subsets and histories are sampled. Termination is bounded progress (quiescent store, timeouts fired), not liveness."),
  "C12": dict(cat="fault_enumeration", ref="§3 C12", tech="hostile-input generation (exhaustive single-edit matrix on generic CBOR/JSON values, truncations at every offset, bit flips, random bytes) decoded under recover + placement runs in journalled child processes",
-   text="Single edits are enumerated exhaustively (field paths x 21 replacement kinds on v2, link-encrypted v2, v1, manifest and v0 templates); multi-edits, bit flips and placements are sampled; every accessor / comparator / Verify / Join is called on whatever decodes; stored logs with a hostile block at head / interior / root / reference-only positions must load the rest through all loaders with the process alive.",
+   text="Single edits are enumerated exhaustively (field paths x 21 replacement kinds on v2, link-encrypted v2, v1, manifest and v0 templates); multi-edits, bit flips and placements are sampled; every accessor / comparator / Verify / Join is called on whatever decodes; stored logs with hostile blocks at head / interior / root / reference-only positions must load the rest through all loaders with the process alive, the loaded log must keep working (size-bounded merges with every bound class, iteration, append), head lists with 40-240 hostile blocks interleaved load completely at high concurrency; a fifth of the quick placement cases again under the race detector.",
    note="In-process decode calls run under recover; loader-driven cases run in children so a panic on a fetcher goroutine is attributed through the journal."),
  "C13": dict(cat="exploration", ref="§3 C13", tech="Go race detector + forced-preemption sweep at verif hook points + porcupine linearizability of the mutator history + offline history checker + read-result monitors + deadlock classifier",
    text="Race-instrumented children run short concurrent histories on one log (free-running, seeded noise, and a sweep parking one worker at every hook point while every other operation kind runs); oracles: race reports with both stacks in the library, state-based deadlock verdicts, exactly-once / real-time-implies-causal / one-chain checks, porcupine against a sequential log model, structural monitors on every read.",
@@ -52,22 +52,22 @@ CHECKS = {
    text="Live-append, live-merge, cross-merge and ring scenarios; every merge result must be before U S_i for a source state S_i recorded inside the call/return window, with heads an exact function of the result, causal closure w.r.t. all entries ever created, and termination.",
    note="Each log has one mutator goroutine so its state chain is known exactly; window bounds come from one atomic logical clock."),
  "C15": dict(cat="exploration", ref="§3 C15", tech="runtime monitor: exact expected-sequence oracle from the reference model for seeded iterator queries, run under recover with post-return channel drain",
-   text="Seeded option combinations (default / 1-3 inclusive / exclusive / unknown upper bounds, inclusive / exclusive lower bounds inside the range, amounts 0..size+2) on forked logs; sequence, closure, error and no-panic clauses.",
+   text="Seeded option combinations (default / 1-3 inclusive / exclusive / unknown upper bounds, inclusive / exclusive lower bounds inside the range, amounts 0..size+2) on forked logs; sequence, closure, error and no-panic clauses; in child processes every kind of bounded iteration is parked at its hook points while a writer starts on the same log, and trimmed logs are iterated at their oldest entry before a writer runs (state-based deadlock classifier).",
    note="With several causally related inclusive bounds plus an amount the oracle tolerates a prefix short by at most #bounds-1 ('at most' in the property)."),
  "C16": dict(cat="exploration", ref="§3 C16", tech="runtime monitor: replay twins (same history, identical hashes) compared for bounded vs unbounded merge, every n in 0..total+3",
-   text="For pairs of replicas of seeded histories and every bound the bounded merge is compared with the tail of the twin's unbounded linearisation; heads against the model.",
+   text="For pairs of replicas of seeded histories and every bound the bounded merge is compared with the tail of the twin's unbounded linearisation; heads against the model; sequences of two bounded merges (first bound 0..total-1) followed by an append.",
    note="Sequence comparison only where the ordering is total on the merged set; counts/heads always."),
  "C17": dict(cat="fault_enumeration", ref="§3 C17", tech="online closure assertion inside the store's Add (under its mutex) + crash-point enumeration: reload of every published hash from every store prefix; injected write failures",
-   text="Every block write of seeded histories is checked for causal closure with the codec in use; every returned manifest / entry hash / head list is reloaded from the store prefix at its return and from later prefixes (thorough: every later prefix) and compared with the state recorded at that moment; failed writes must fail the operation and leave the log unchanged.",
+   text="Every block write of seeded histories is checked for causal closure with the codec in use; every returned manifest / entry hash / head list is reloaded from the store prefix at its return and from later prefixes (thorough: every later prefix) and compared (log id, entries, heads, values) with the state recorded at that moment; failed writes must fail the operation and leave the log unchanged.",
    note="Crash = loss of all block writes after a prefix; single block writes are atomic. Reload clauses under default and link codecs; closure assertion under all three."),
  "C18": dict(cat="exploration", ref="§3 C18", tech="runtime monitor: byte-pattern search on raw blocks captured at Add time (8 encodings per link) + three independent reader codecs (same / no / other key)",
-   text="For every appended entry with links under a link key: no encoding of any link in the stored bytes, no traversable IPLD links, same-key reader recovers identical lists, verifies, loads and merges the log; no-key and other-key readers obtain no links.",
+   text="For every appended entry with links under a link key: no encoding of any link in the stored bytes, no traversable IPLD links, same-key reader recovers identical lists, verifies, loads and merges the log (also four same-key readers merging one loaded log at the same time); no-key and other-key readers obtain no links.",
    note="Nonce reuse / ciphertext indistinguishability are not observable by this monitor."),
  "C19": dict(cat="exploration", ref="§3 C19", tech="exhaustive axiom evaluation over a finite synthetic domain (11664 pairs, 1.26M triples) + all permutations of sampled multisets + draws from real histories",
-   text="Irreflexivity, totality, antisymmetry, transitivity, causality-respect, default = hash-tiebreak on distinct clocks, first-write-wins = reverse, NoZeroes transparency, Sort permutation/determinism. The pair/triple axioms are enumerated completely over the stated domain (exhaustive: true).",
+   text="Irreflexivity, totality, antisymmetry, transitivity, causality-respect, default = hash-tiebreak on distinct clocks, first-write-wins = reverse, NoZeroes transparency, Sort permutation/determinism, independence from an entry object's history (objects compared before and then re-hashed / re-clocked compare like fresh ones). The pair/triple axioms are enumerated completely over the stated domain (exhaustive: true).",
    note="Clock times are non-negative as in every entry the library creates."),
  "C20": dict(cat="exploration", ref="§3 C20", tech="runtime monitor: reference map id -> key bytes over seeded interleavings across keystore instances sharing an instrumented datastore; identity clauses verified directly with libp2p",
-   text="1-4 real Keystore instances over one datastore, up to 400 ids (beyond the 128-entry cache), restarts; HasKey/GetKey on every instance after every creation; identity stability and the three signature clauses; thorough adds concurrent use under the race detector.",
+   text="1-4 real Keystore instances over one datastore, up to 400 ids (beyond the 128-entry cache), restarts; HasKey/GetKey on every instance after every creation; identity stability (also after requests and identity creations under an ended context, on context-honouring and context-ignoring datastores) and the three signature clauses, also for the identity a reader decodes from a stored entry; thorough adds concurrent use under the race detector.",
    note="Each id is created once (a second raw CreateKey on the same id replaces the key and is outside 'a key once created')."),
 }
 PENDING = {}
